@@ -211,6 +211,7 @@ class P(Prop):
             k = rng.choice([2, 2, 3, 4, 5])
             self.check_limit(c, k, "fanin")
             self.check_limit(c, k, "fanout")
+            self.again_after_edit(c, lambda: (self.check_limit(c, k, "fanin"), self.check_limit(c, k, "fanout")), p=0.25)
             if i % 3 == 0:
                 # limiting an already limited circuit (helper names of the first pass are taken)
                 o1, c5 = call(cg.tx.limit_fanin, c, 5)
@@ -219,6 +220,35 @@ class P(Prop):
                     self.check_limit(c5, 2, "fanin")
                 if o2 == "ok":
                     self.check_limit(d5, 2, "fanout")
+            if i % 4 == 1:
+                # composition history: a block that an earlier call of the same transform returned is merged into a
+                # larger circuit by fill_blackbox; the bound must hold for the whole result
+                tiny = cg.Circuit("blk")
+                tiny.add("i", "input")
+                tiny.add("m", "not", fanin="i")
+                tiny.add("o", "not", fanin="m", output=True)
+                o1, blk = call(rng.choice([cg.tx.limit_fanout, cg.tx.limit_fanin]), tiny, rng.choice([2, k]))
+                if o1 == "ok":
+                    try:
+                        par = gen.splice_block(rng, c, blk)
+                    except Exception:  # noqa: BLE001
+                        par = None
+                    if par is not None:
+                        self.stats.bump("history:spliced-transform-result")
+                        self.check_limit(par, k, "fanin")
+                        self.check_limit(par, k, "fanout")
+            if i % 4 == 3:
+                # chain: the result of one call, edited in place by its owner, limited again
+                for which, f in (("fanin", cg.tx.limit_fanin), ("fanout", cg.tx.limit_fanout)):
+                    o1, r1 = call(f, c, k)
+                    if o1 == "ok":
+                        try:
+                            op = gen.inplace_edit(rng, r1, exclude=("relabel",))
+                        except Exception:  # noqa: BLE001
+                            op = None
+                        if op:
+                            self.stats.bump("history:transform-result-edited")
+                            self.check_limit(r1, k, which)
             if i % 2 == 0:
                 st = rng.randint(1, 4)
                 self.check_insert_registers(c, st)
